@@ -410,7 +410,17 @@ fn mutated_case(ch: &mut Choices<'_>, st: &mut Stats) -> CaseResult {
             // carrying a payload shaped like a list section or the section itself)
             if let Value::Object(o) = &mut doc {
                 let mut name = ch.pick(&["nope", "", "$list", "$lists2", "x.y.z.unknown", "$", "$LISTS", "$lists.", " $lists"]).to_string();
-                if ch.chance(1, 3) {
+                if ch.chance(1, 5) {
+                    // other identifiers of the scheme that are not fields: its functions
+                    let mut funcs: Vec<String> = w.recipe.funcs.clone();
+                    if w.recipe.concat {
+                        funcs.push("concat".into());
+                    }
+                    if !funcs.is_empty() {
+                        name = ch.pick(&funcs).clone();
+                        st.class("mutated:function-name-as-key");
+                    }
+                } else if ch.chance(1, 3) {
                     // long names with multi-byte characters straddling round byte offsets
                     let pad = *ch.pick(&[0usize, 1, 2, 3, 14, 15, 16, 30, 31, 32, 61, 62, 63, 64, 65, 125, 126, 127, 128, 253, 254, 255, 256, 1021, 1022, 1023]);
                     let wide = *ch.pick(&["\u{e9}", "\u{20ac}", "\u{1f600}", "\u{0}", "\u{7f}\u{80}"]);
